@@ -133,6 +133,24 @@ def _ops():
     def _(mpc, T, A, B, c):
         return mpc.convert(A, mpc.SecInt(32) if T.frac_length == 0 else mpc.SecInt(24))
 
+    def _stat(fn):
+        def f(mpc, T, A, B, c):
+            from mpyc import statistics as st
+            return getattr(st, fn)(A)
+        return f
+    for fn in ('mean', 'median', 'median_low', 'median_high', 'variance', 'pvariance', 'stdev', 'mode'):
+        op('statistics.' + fn, ('C34',))(_stat(fn))
+
+    @op('statistics.quantiles', ('C34',))
+    def _(mpc, T, A, B, c):
+        from mpyc import statistics as st
+        return st.quantiles(A, n=4)
+
+    @op('statistics.covariance', ('C34',), uses_b=True)
+    def _(mpc, T, A, B, c):
+        from mpyc import statistics as st
+        return st.covariance(A, B)
+
     @op('lsb-of-sum', ('C30',), kinds=('int',))
     def _(mpc, T, A, B, c):
         return mpc.lsb(mpc.sum(A))
@@ -221,6 +239,8 @@ def check(ctx, prop):
             if prop in ('C02', 'C03') and kind != 'fxp':
                 continue
             if prop == 'C01' and kind != 'int':
+                continue
+            if prop == 'C34' and kind == 'fxp' and name.endswith('mode'):
                 continue
             for (m, t) in ((1, 0), (3, 1)):
                 seed = rng.randrange(10**9)
